@@ -54,7 +54,71 @@ def gen_cases(tier, seed):
                     cases.append({"id": cid, "sig": [wrs, was, waors, layout, enc, "valid", "", "kit", mdkeys], "opts": [wrs, was, waors], "layout": layout, "enc": enc,
                                   "corr": "valid", "maker": "kit", "how": "", "alg": "rsa-sha256", "mdkeys": mdkeys,
                                   "identity": gen.identity(random.Random("%s/%s" % (seed, cid)))})
+    # options that are left out of a configuration: what such an SP does must not depend on which SPs were built before it in the same
+    # process (reference: the same configuration in a fresh interpreter)
+    names = ["want_response_signed", "want_assertions_signed", "want_assertions_or_response_signed"]
+    k = 0
+    for given in itertools.product((None, 0, 1), repeat=3):
+        if None not in given:
+            continue
+        for order in ("explicit-true-first", "explicit-false-first", "mixed-first"):
+            if tier == "quick" and (k % 3) != ("explicit-true-first", "explicit-false-first", "mixed-first").index(order) and given != (None, None, None):
+                k += 1
+                continue
+            k += 1
+            cid = "omitted-%s-after-%s" % ("".join("x" if g is None else str(g) for g in given), order)
+            cases.append({"id": cid, "sig": ["omitted-options", list(given), order], "kind": "omitted", "given": list(given), "order": order})
     return cases
+
+
+def sp_with(given):
+    kw = {n: bool(v) for n, v in zip(("want_response_signed", "want_assertions_signed", "want_assertions_or_response_signed"), given) if v is not None}
+    spc = fed.sp_conf(**kw)
+    idc = fed.idp_conf()
+    return fed.make_sp(spc, [fed.metadata_of(idc)]), fed.make_idp(idc, [fed.metadata_of(spc)])
+
+
+def acceptance_vector(given):
+    """which of the four signed layouts (valid, plain) an SP configured with only the given options accepts"""
+    sp, idp = sp_with(given)
+    out = []
+    for layout in ("none", "R", "A", "RA"):
+        xml = fed.issue(idp, {"givenName": ["Ann"]}, sign_response="R" in layout, sign_assertion="A" in layout)
+        r, e = fed.deliver(sp, xml, dict(OUT))
+        out.append(int(r is not None))
+    return out
+
+
+def run_omitted(case, ctx):
+    import json
+    import subprocess
+    import sys
+    given = case["given"]
+    # reference from a fresh interpreter (nothing was configured there before)
+    code = "import json; from checks import c02; print('VECTOR ' + json.dumps(c02.acceptance_vector(%r)))" % (given,)
+    p = subprocess.run([sys.executable] + (["-O"] if sys.flags.optimize else []) + ["-W", "ignore", "-c", code], cwd=env.VERIF, stdout=subprocess.PIPE, stderr=subprocess.STDOUT,
+                       env=dict(__import__("os").environ, PYTHONPATH=env.VERIF), timeout=600)
+    lines = [l for l in p.stdout.decode("utf-8", "replace").splitlines() if l.startswith("VECTOR ")]
+    if not lines:
+        return {"outcome": "HARNESS-ERROR", "error": "no reference vector: %s" % p.stdout.decode("utf-8", "replace")[-400:]}
+    ref = json.loads(lines[-1][7:])
+    # history in this process: SPs that state every option explicitly, in some order
+    combos = list(itertools.product((0, 1), repeat=3))
+    if case["order"] == "explicit-true-first":
+        combos.sort(key=lambda c: -sum(c))
+    elif case["order"] == "explicit-false-first":
+        combos.sort(key=lambda c: sum(c))
+    else:
+        random.Random(str(given)).shuffle(combos)
+    for c in combos:
+        sp_with(c)
+    got = acceptance_vector(given)
+    viol = []
+    if got != ref:
+        viol.append({"key": "C02/omitted-option-takes-its-value-from-an-earlier-sp",
+                     "what": "SP configured with %r (None = option left out) built after SPs with explicit settings (%s) accepts layouts none/R/A/RA as %r; the same "
+                             "configuration in a fresh interpreter: %r" % (dict(zip(("response", "assertions", "either"), given)), case["order"], got, ref)})
+    return {"outcome": "held" if not viol else "violations", "nontrivial": True, "violations": viol, "counters": {"omitted_option_histories": 1, "accepted": sum(got)}}
 
 
 # IdP entries of the SP's metadata without a key usable for verifying signatures (the issuer still signs with k00)
@@ -147,6 +211,8 @@ def expected_accept(case):
 
 
 def run_case(case, ctx):
+    if case.get("kind") == "omitted":
+        return run_omitted(case, ctx)
     sp, idp = _sp(ctx, case["opts"], case.get("mdkeys"))
     xml, rid, aid = build_message(case, idp)
     ctx.mark()
@@ -193,11 +259,11 @@ def run_case(case, ctx):
 
 
 def finalize(cases, results, tier, extras):
-    cells = set(tuple(c["sig"][:6]) for c in cases)
+    cells = set(tuple(c["sig"][:6]) for c in cases if c.get("kind") != "omitted")
     done = set()
     by = {c["id"]: c for c in cases}
     for r in results:
-        if r.get("outcome") != "HARNESS-ERROR":
+        if r.get("outcome") != "HARNESS-ERROR" and by[r["id"]].get("kind") != "omitted":
             done.add(tuple(by[r["id"]]["sig"][:6]))
     inc = []
     if done != cells:
